@@ -84,6 +84,22 @@ def run_device(dev: str, hs: list, run, label: str) -> None:
                 else f"{dev}: transpiler {r['transpile']} ({r.get('cls')}: {r.get('msg')})" if r["transpile"] != "accept"
                 else f"{dev}: emitted firmware does not compile: {r.get('stderr', '')[-300:]}")
         run.violation(what, {"device": dev, "history": h, "runtime": runtime, "script": r["src"]})
+    # the host class on the same histories (what "the host predicts" is bound to the same specification; C19 does this in depth):
+    # a host that skips a wait, restores another colour or keeps another mode than the specification says disagrees with the device
+    htraces = []
+    for k, h in enumerate(hs):
+        t = {"id": f"{dev}-{k}-host", "side": "host", "ev": HOST[dev](h)}
+        if dev == "servo":
+            t["cal"] = h["cal"]
+        htraces.append(t)
+    hverd = validate(DEV[dev]["trace"], DEV[dev]["trace"] + ".cfg", htraces, run, label=f"{dev} host {label}") if htraces else {}
+    for k, h in enumerate(hs):
+        v = hverd.get(f"{dev}-{k}-host")
+        run.count(f"{dev}-{k}-host")
+        if v is not None and not v["ok"]:
+            ev = htraces[k]["ev"]
+            run.violation(f"{dev}: the host class leaves the specification at call {v['l'] - 1} ({v['clause']}): {json.dumps(ev[v['l'] - 1])[:260]}",
+                          {"device": dev, "history": h, "side": "host", "verdict": v, "trace": ev})
     if not traces:
         return
     verdicts = validate(DEV[dev]["trace"], DEV[dev]["trace"] + ".cfg", traces, run, label=f"{dev} firmware {label}")
@@ -117,6 +133,16 @@ def check(run) -> None:
 
 def replay(path: str) -> int:
     r = json.load(open(path))
+    if r.get("side") == "host":
+        t = {"id": "replay", "side": "host", "ev": HOST[r["device"]](r["history"])}
+        if r["device"] == "servo":
+            t["cal"] = r["history"]["cal"]
+        v = validate(DEV[r["device"]]["trace"], DEV[r["device"]]["trace"] + ".cfg", [t])["replay"]
+        print(json.dumps(v))
+        if not v["ok"]:
+            print(f"VIOLATION property=C04 replay={path}")
+            return 1
+        return 0
     dev, h, runtime = r["device"], r["history"], r["runtime"]
     res = fw_act.run_pack(dev, [h], runtime)
     if "traces" not in res or res["traces"][0] is None:
